@@ -118,3 +118,32 @@ Example remark_replace_operator_id :
   /\ c02_ok ops_rep_op (model_obs false empty_coll ops_rep_op) = true
   /\ c02_reasons ops_rep_op (model_obs false empty_coll ops_rep_op) = 128.
 Proof. repeat split; vm_compute; reflexivity. Qed.
+
+(* ---- why the history theorem asks every argument document to be well-formed (op_wf in
+   Proofs/C02History.v, not a guard bit): a value of the model is an association list, and an
+   inserted "document" that repeats a key is not a Python dict.  On such a value $unset
+   removes the first binding only and the field is still there afterwards.  This is an
+   artefact of the model's value type, NOT a defect of the library. *)
+Definition d_dup := VDoc [("_id", VInt 1); ("a", VInt 1); ("a", VInt 2)].
+Definition ops_dup :=
+  [OInsertOne d_dup; OUpdate (VDoc []) (VDoc [("$unset", VDoc [("a", VInt 1)])]) false false].
+
+Example refuted_duplicate_key_insert :
+  wf_value d_dup = false
+  /\ modelled false empty_coll ops_dup = true
+  /\ c02_reasons ops_dup (model_obs false empty_coll ops_dup) = 0
+  /\ c02_ok ops_dup (model_obs false empty_coll ops_dup) = false.
+Proof. repeat split; vm_compute; reflexivity. Qed.
+
+(* the same through the filter of an upsert, whose equality fields seed the new document *)
+Definition f_dup := VDoc [("b", VDoc [("x", VInt 1); ("x", VInt 2)])].
+Definition ops_dup_filter :=
+  [OUpdate f_dup (VDoc [("$set", VDoc [("c", VInt 1)])]) false true;
+   OUpdate (VDoc []) (VDoc [("$unset", VDoc [("b.x", VInt 1)])]) false false].
+
+Example refuted_duplicate_key_filter :
+  wf_value f_dup = false
+  /\ modelled false empty_coll ops_dup_filter = true
+  /\ c02_reasons ops_dup_filter (model_obs false empty_coll ops_dup_filter) = 0
+  /\ c02_ok ops_dup_filter (model_obs false empty_coll ops_dup_filter) = false.
+Proof. repeat split; vm_compute; reflexivity. Qed.
